@@ -37,7 +37,10 @@ type ChildCase struct {
 	NNP             bool     `json:"nnp"`
 	Probes          []Probe  `json:"probes"`
 	KillThreadProbe bool     `json:"kill_thread_probe,omitempty"`
-	Unprivileged    bool     `json:"unprivileged,omitempty"`
+	// PreloadOnOtherThread: before the judged load, another pinned thread loads the very same filter
+	// (only meaningful without thread-sync).
+	PreloadOnOtherThread bool `json:"preload_on_other_thread,omitempty"`
+	Unprivileged         bool `json:"unprivileged,omitempty"`
 
 	// Raw: rawload mode hands this program (code, jt, jf, k) to seccomp(2) directly.
 	Raw [][4]uint32 `json:"raw,omitempty"`
